@@ -213,4 +213,13 @@ def init (secure : Bool) (port : Nat) (servers : List Server) (reqs : List Req) 
     secure := secure, port := port, alive := (scriptOf servers port).isSome, pending := none, used := [],
     redirects := [], entries := [], wire := [], inflight := 0, peak := 0, outcome := .running }
 
+/-- a second run on the same Client object: `client.reopen()` while idle, then more `client.request(...)` calls.
+`Client.request` fills what the caller leaves out from the requester's CURRENT fields (at the time of the call):
+`path = none` → the stored path, `qargs = none` → the stored query arguments.  (No theorem depends on this function.) -/
+def reopenAndQueue (servers : List Server) (s : St) (base : Nat) (more : List (Bytes × Option Bytes × Bytes × Option (List (Bytes × Bytes)))) : St :=
+  if s.waited || s.outcome != .running then s else
+  let rs : List Req := more.map fun m => ⟨m.1, m.2.1.getD s.cur.path, m.2.2.1, m.2.2.2.getD s.cur.qargs⟩
+  { s with alive := (scriptOf servers s.port).isSome, pending := none,
+           queue := s.queue ++ ((List.range rs.length).map (· + base)).zip rs }
+
 end Hio.Http.Cli
